@@ -235,3 +235,36 @@ META["C10"] = {
                "thorough": {"executions_recorded": 150000, "distinct_nontrivial": 50000}},
 }
 PY_SERVES.extend(["C10", "C13", "C14", "C15"])
+
+
+def post_C09(agg, info):
+    import exec_check
+    v, cov = exec_check.check_dir(os.path.join(info["tmpdir"], "aux"), "c09", "C09", info["seed"], info["tier"], info["nshards"])
+    # value mismatches found on multi-operation graphs belong to C10's statement; they are reported here only as
+    # type-soundness problems when the TYPE differs. Value differences are still violations of "value has the
+    # encoding of the inferred type" only if types differ, so keep type/eval/panic signatures and drop pure value ones.
+    v = [x for x in v if "|value_mismatch|" not in x["sig"]]
+    problems = []
+    floor = 1500 if info["tier"] == "quick" else 30000
+    if cov["node_types_cross_checked"] < floor:
+        problems.append(f"too few events: node_types_cross_checked={cov['node_types_cross_checked']} < floor {floor}")
+    return v, cov, problems
+
+
+META["C09"] = {
+    "level": "exploration",
+    "rule": "random graphs of 3-15 nodes over ALL primitive operations (G_any: arithmetic, matmul family, structural ops, conversions, "
+            "tuples/vectors, call/iterate, truncation, Random/PRF, gather, permutation utilities, sort, segment cumsum, switching-map "
+            "helpers, print/assert) built by trial through the real add_node; about one proposal in three is rejected by type inference; "
+            "inputs uniform / extreme, index-like constants both valid and invalid; a case is one graph; non-trivial = at least 3 "
+            "accepted operations and at least one completed evaluation; distinct by structural hash",
+    "assumptions": COMMON_ASSUMPTIONS + [
+        "online type monitor: Value::check_type(node type) plus an independent layout check on every node value",
+        "an evaluation Err is accepted only when raised by a data-dependent operation (VectorGet, permutation / gather index validity, "
+        "cuckoo helpers, Assert, joins, sort, segment cumsum)",
+        "offline: the NumPy model re-derives every node's shape and scalar type for graphs it supports",
+    ],
+    "floors": {"quick": {"graphs": 8000, "node_values_checked": 80000, "distinct_nontrivial": 3000},
+               "thorough": {"graphs": 200000, "node_values_checked": 2000000, "distinct_nontrivial": 80000}},
+}
+PY_SERVES.append("C09")
